@@ -100,6 +100,18 @@ WITNESSES = [
      "want": {"payload_class": "0xE00", "content": "random"}},
     {"kind": "witness", "name": "dsc-crc", "family": "mwct2012", "target": "xip", "auth": "crc",
      "want": {"payload_class": "0xE00", "content": "random"}},
+    {"kind": "witness", "name": "dsc-short-app", "family": "mc56f81646", "target": "xip", "auth": "crc",
+     "want": {"payload_class": "0x400", "content": "random", "lifecycle": "OEM_OPEN"}},
+    {"kind": "witness", "name": "dsc-short-app-vx", "family": "mwct20d2", "target": "xip", "auth": "signed",
+     "want": {"payload_class": "0x400", "content": "random", "lifecycle": "NOT_SET"}},
+    {"kind": "witness", "name": "dsc-unknown-lifecycle", "family": "mc56f81768", "target": "xip", "auth": "crc",
+     "want": {"payload_class": "0xE00", "content": "ones", "lifecycle": "NOT_SET", "fcf_byte": 0xF3}},
+    {"kind": "witness", "name": "certv1-mixed-chain", "family": "lpc55s69", "target": "xip", "auth": "signed",
+     "want": {"payload_class": "0x200", "content": "random", "tz": "disabled", "kind": "rsa3072", "depth": 2, "mixed": True, "leaf_kind": "rsa2048"}},
+    {"kind": "witness", "name": "manifest-default-tz", "family": "mcxn947", "target": "xip", "auth": "signed",
+     "want": {"payload_class": "0x200", "content": "random", "tz": "enabled", "curve": "p256", "isk": False}},
+    {"kind": "witness", "name": "vx-add-hash", "family": "mc56f81868", "target": "xip", "auth": "signed",
+     "want": {"payload_class": "0xE00", "content": "random", "add_hash": True, "lifecycle": "OEM_OPEN"}},
     {"kind": "witness", "name": "enc-0x38", "family": "mimxrt595s", "target": "load_to_ram", "auth": "encrypted",
      "want": {"payload_class": "0x38", "content": "random", "tz": "disabled", "kind": "rsa2048", "depth": 1, "reloc": 0}},
     {"kind": "witness", "name": "enc-0x40", "family": "mimxrt533s", "target": "load_to_ram", "auth": "encrypted",
@@ -115,12 +127,14 @@ def cases(tier, seed):  # noqa: ARG001
     for w in WITNESSES:
         yield dict(w)
     reps = set(G.representative_families())
-    per_rep, per_other = (4, 1) if tier == "quick" else (40, 40)
+    per_rep, per_other = (6, 2) if tier == "quick" else (40, 40)
     n = 0
     for fam in G.families():
         draws = per_rep if fam in reps else per_other
         for idx, info in enumerate(G.images(fam)):
-            for k in range(draws):
+            # the classes with the most machinery (HMAC / key store / encryption / relocation table) get more draws
+            mult = 4 if info["auth"] == "encrypted" else (2 if G.m(info["mixins"], "MixinRelocTable") else 1)
+            for k in range(draws * mult):
                 c = {"kind": "gen", "family": fam, "target": info["target"], "auth": info["auth"], "k": k}
                 # CLI path on a sample: one draw of every class of the representative families (+ a slice of the rest)
                 if (fam in reps and k == 0) or (tier == "thorough" and k == 1 and idx == 0):
@@ -134,6 +148,24 @@ def _info(family, target, auth):
         if i["target"] == target and i["auth"] == auth:
             return i
     raise core.Inconclusive(f"{family}: no image ({target}, {auth}) in the database under test")
+
+
+def extra_coverage(events, counters):  # noqa: ARG001
+    """Acceptance ratio per export class: below 70 % the class was not really explored -> inconclusive."""
+    ratios = {}
+    low = []
+    for k, acc in counters.items():
+        if k.startswith("accepted/"):
+            name = k.split("/", 1)[1]
+            ref = counters.get(f"refused/{name}", 0)
+            ratios[name] = round(acc / (acc + ref), 3)
+    for k, ref in counters.items():
+        if k.startswith("refused/") and f"accepted/{k.split('/', 1)[1]}" not in counters:
+            ratios[k.split("/", 1)[1]] = 0.0
+    low = sorted(n for n, r in ratios.items() if r < 0.7)
+    if low:
+        raise RuntimeError(f"builder accepted < 70 % of the generated configurations of class(es) {low}: {ratios}")
+    return {"acceptance_ratio_by_export_class": ratios}
 
 
 # ------------------------------------------------------------------------------------ monitors
@@ -284,6 +316,18 @@ def hmac_offset_conflict(b):
     return n <= 0x40 if b.has("ExportMixinAppTrustZoneCertBlockEncrypt") else n < 0x40
 
 
+def dsc_app_too_short(b):
+    """DSC classes keep vectors, BCA, FCF and certificates in the first 0xC00 bytes of the APPLICATION itself: an
+    application shorter than that cannot be represented (fields are written past its end, lengths go negative)."""
+    return b.has("MixinBcaTable") and len(b.app) < 0xC00
+
+
+def unknown_lifecycle_byte(b):
+    """lifeCycle NOT_SET keeps the application's own FCF byte; True when that byte is no life-cycle name."""
+    return (b.has("MixinFcfObsolete") and b.opts.get("lifecycle") == 0xFF and len(b.app) > 0x40C
+            and b.app[0x40C] not in G.LIFECYCLES.values())
+
+
 def export_mixin(b):
     return next((x for x in b.mixins if x.startswith("Mbi_ExportMixinApp")), "?").replace("Mbi_", "")
 
@@ -291,6 +335,15 @@ def export_mixin(b):
 def mixed_chain(b):
     """Certificate block v1 whose image-signing (last) key has another size than the root key."""
     return bool(b.cert and b.cert.get("v") == "v1" and b.cert.get("mixed"))
+
+
+def sigsize_mechanism(b, data):
+    """True when the length word is off by exactly (root modulus size - last certificate's modulus size): the signature
+    size was taken from the ROOT certificate although the LAST certificate's key signs the image."""
+    if not mixed_chain(b) or len(data) < 0x24:
+        return False
+    word = struct.unpack_from("<I", data, 0x20)[0]
+    return word - len(data) == _rsa_bytes(b.cert["kind"]) - _rsa_bytes(b.cert["leaf_kind"])
 
 
 def classify_parse_failure(b, exc, data):
@@ -309,7 +362,7 @@ def classify_parse_failure(b, exc, data):
         return "mbi-parse-mixin-order-trustzone-before-certblock"
     if hmac_offset_conflict(b):
         return "mbi-encrypted-app-not-beyond-hmac-offset"
-    if mixed_chain(b) and ("Insufficient length" in msg or fname == "cert_blocks.py"):
+    if sigsize_mechanism(b, data):
         return "certv1-signature-size-from-root-certificate"
     if b.has("MixinRelocTable"):
         if o.get("reloc") and fname == "mbi_classes.py":
@@ -348,6 +401,9 @@ def _run(case, ctx, b, SPSDKError, MasterBootImage):  # noqa: C901
     def viol(key, **detail):
         d = {"config": b.describe()}
         d.update(detail)
+        if dsc_app_too_short(b) and not key.startswith("mbi-parse-type") and key != "mbi-dsc-app-shorter-than-header-area":
+            d["observed_as"] = key
+            key = "mbi-dsc-app-shorter-than-header-area"
         ctx.violation(key, d)
 
     # ---- 1. export ------------------------------------------------------------------------
@@ -355,18 +411,17 @@ def _run(case, ctx, b, SPSDKError, MasterBootImage):  # noqa: C901
         obj, data = G.export(b)
     except SPSDKError as e:
         ctx.count("export_refused")
+        ctx.count(f"refused/{export_mixin(b)}")
         ctx.refused([info["cls"], b.payload_class.split("/")[0]], core.exc_brief(e))
         return
     except struct.error as e:
-        if b.has("MixinBcaObsolete") and len(b.app) < 0xC00 and core.origin_of(e) == "repo":
-            # a DSC application shorter than its own header area: no image is produced (negative length word);
-            # not an accepted configuration - counted, reported as an observation
-            ctx.count("export_refused")
-            ctx.note("export_struct_error_on_too_short_dsc_application", core.exc_brief(e))
-            ctx.refused([info["cls"], b.payload_class.split("/")[0]], core.exc_brief(e))
+        if dsc_app_too_short(b) and core.origin_of(e) == "repo":
+            # not validated: the negative length word escapes as struct.error instead of a refusal
+            viol("mbi-dsc-app-shorter-than-header-area", exception=core.exc_brief(e))
             return
         raise
     ctx.count("export_ok")
+    ctx.count(f"accepted/{export_mixin(b)}")
     is_ivt = any(x.startswith("Mbi_MixinIvt") for x in b.mixins)
     prof = G.rom_profile(family, info)
 
@@ -408,7 +463,7 @@ def _run(case, ctx, b, SPSDKError, MasterBootImage):  # noqa: C901
                 if hmac_offset_conflict(b):
                     viol("mbi-encrypted-app-not-beyond-hmac-offset", length_word=hex(hdr["total_length"]),
                          derived=hex(rep.derived_length), file_len=hex(len(data)))
-                elif mixed_chain(b) and hdr["total_length"] - len(data) == _rsa_bytes(b.cert["kind"]) - _rsa_bytes(b.cert["leaf_kind"]):
+                elif sigsize_mechanism(b, data):
                     # mechanism: signature size taken from the ROOT certificate, the signature is made by the LAST one
                     viol("certv1-signature-size-from-root-certificate", length_word=hex(hdr["total_length"]), file_len=hex(len(data)),
                          root=b.cert["kind"], leaf=b.cert["leaf_kind"])
@@ -479,10 +534,9 @@ def _run(case, ctx, b, SPSDKError, MasterBootImage):  # noqa: C901
                 viol(f"create-config-crash:TypeError:{export_mixin(b)}", exception=core.exc_brief(e))
             cfg2 = None
         except SPSDKError as e:
-            if "DSASSLifeCycle" in str(e) and o.get("lifecycle") == 0xFF:
-                # lifeCycle NOT_SET keeps the application's own FCF byte; a byte that is no life-cycle name cannot be
-                # written into a configuration - an observation about the input, not judged
-                ctx.note("create_config_unknown_lifecycle_byte", str(e)[:80])
+            if "DSASSLifeCycle" in str(e) and unknown_lifecycle_byte(b):
+                # the builder kept the application's own FCF byte (lifeCycle NOT_SET), the parsed object cannot name it
+                viol("mbi-dsc-unknown-lifecycle-byte", where="create_config", exception=core.exc_brief(e))
             else:
                 viol(f"create-config-refused:{export_mixin(b)}", exception=core.exc_brief(e))
             cfg2 = None
@@ -528,7 +582,7 @@ def _classify_payload(b, got, want, data, rep):
     o = b.opts
     if b.has("ExportMixinAppFcf") and len(got) == 0:
         return "mbi-dsc-appfcf-disassemble-missing"
-    if mixed_chain(b):
+    if sigsize_mechanism(b, data):
         return "certv1-signature-size-from-root-certificate"
     if b.has("ExportMixinAppTrustZoneCertBlock"):
         # mechanism: image[:-offset] instead of image[:offset] (offset = certificate block offset, word 0x28)
@@ -579,7 +633,7 @@ def _compare_settings(b, par, viol, data, rep):  # noqa: C901
     if "lifecycle" in o and hasattr(par, "lifecycle"):
         # NOT_SET keeps the application's own byte
         want = o["lifecycle"] if o["lifecycle"] != 0xFF else (pad4(b.app)[0x40C] if len(b.app) > 0x40C else None)
-        if want is not None:
+        if want is not None and not (unknown_lifecycle_byte(b) and par.lifecycle == 0xFF):
             chk("lifecycle", par.lifecycle, want)
     if "tz" in o and hasattr(par, "trust_zone"):
         got_mode = {0: "enabled", 1: "custom", 2: "disabled"}.get(par.trust_zone.type.tag)
@@ -700,7 +754,10 @@ def _reexport(ctx, b, par, data, rep, viol, SPSDKError):
     try:
         data2 = bytes(par.export())
     except SPSDKError as e:
-        viol(f"reexport-refused:{export_mixin(b)}", exception=core.exc_brief(e))
+        if "DSASSLifeCycle" in str(e) and unknown_lifecycle_byte(b):
+            viol("mbi-dsc-unknown-lifecycle-byte", where="re-export", exception=core.exc_brief(e))
+        else:
+            viol(f"reexport-refused:{export_mixin(b)}", exception=core.exc_brief(e))
         return
     except AttributeError as e:
         if core.origin_of(e) != "repo":
